@@ -324,6 +324,14 @@ def r2(ctx):
                     continue
                 cb_, ct = cs[ordn]
                 pos.append((label, cb_, None, grp, "call", b.span_of_block(cb_)))
+        # calls to other mapped (error-producing) functions that are not events of this function
+        event_blocks = {p_[1] for p_ in pos if p_[4] == "call"}
+        mapped = {re.sub(r"::\{closure#\d+\}$", "", k) for k in SITE_MAP}
+        for cb_, ct in b.calls():
+            r_ = ct.get("resolved") or ""
+            tgt = r_ if r_ in mapped else (ct.get("callee") if ct.get("callee") in mapped else None)
+            if tgt and cb_ not in event_blocks:
+                yield VIOL("C13-R2", "unreviewed-check-call/%s/%s" % (fn, tgt.split("::")[-1]), "%s calls the checking function `%s` at a position that is not in the reviewed rule-site map" % (fn.split("::")[-1], tgt), where=b.span_of_block(cb_))
         for k, e in enumerate(errs):
             if k not in used:
                 yield VIOL("C13-R2", "unreviewed-error-exit/%s/%s" % (fn, e[2]), "SignatureError::%s constructed at a site that is not in the reviewed rule-site map (heads: %s)" % (e[2], e[3][:60]), where=e[4])
